@@ -98,7 +98,7 @@ Definition res_beq {A} (f : A -> A -> bool) (a b : res A) : bool :=
   | _, _ => false
   end.
 
-Inductive dop := DAstype (d : dtype) | DReal | DComplex | DGetitem (i : pidx) | DByaxis (i : aidx).
+Inductive dop := DAstype (d : dtype) | DReal | DComplex | DGetitem (i : pidx) | DByaxis (i : aidx) | DByaxisIn (i : aidx).
 
 Definition run_dop (dv : dvariants) (a : obj Q) (op : dop) : res (obj Q) :=
   match op with
@@ -107,6 +107,7 @@ Definition run_dop (dv : dvariants) (a : obj Q) (op : dop) : res (obj Q) :=
   | DComplex => ocomplex_space dv a
   | DGetitem i => ogetitem dv a i
   | DByaxis i => match a with OTensor t => rmap OTensor (tsp_byaxis dv t i) | _ => ErrType end
+  | DByaxisIn i => obyaxis_in dv a i
   end.
 
 Record caseD := { d_dv : dvariants; d_a : obj Q; d_op : dop; d_out : res (obj Q) }.
